@@ -122,12 +122,24 @@ def gen_cases(rng, tier):
         spell = rng.randrange(10**6)
         alt = rng.random() < 0.3
         noncmp = [f"f{j}" for j in range(nf) if rng.random() < 0.2]     # compare=False fields are type-checked like the others
+        # fields declared `= None` (the `name: str = None` idiom): the declared default says nothing about the annotation;
+        # the value None is given explicitly or left to the default (seeded change C13-8)
+        defnone, omit = [], []
+        for j in range(nf):
+            if f"f{j}" not in noninit and rng.random() < 0.2:
+                defnone.append(f"f{j}")
+                if rng.random() < 0.6:
+                    nm, t_, _v = fields[j]
+                    fields[j] = (nm, t_, P.X_NONE)
+                    if rng.random() < 0.5:
+                        omit.append(nm)
         split, reann = 0, []
         if rng.random() < 0.3:
             split = rng.randint(1, nf)
             reann = [f"f{j}" for j in range(split) if rng.random() < 0.3]
         cases.append(_fields_case(fields, quoted, {"kind": "base-first" if split else "random-class", "noninit": noninit, "spell": spell,
-                                                   "alt": alt, "noncmp": noncmp, "split": split, "reann": reann}))
+                                                   "alt": alt, "noncmp": noncmp, "split": split, "reann": reann,
+                                                   "defnone": defnone, "omit": omit}))
         if rng.random() < 0.35:
             # the same class constructed a second time with other values, after a first construction with the values
             # above: a verdict must not depend on what an earlier construction of the class was given
@@ -175,6 +187,10 @@ def impl(t, case):
         if name in (opts.get("noninit") or []):
             decl = lambda a: f"    {name}: {a} = field(init=False, default_factory=lambda: _DEFAULTS[{name!r}]{cmp_})"
             defaults[name] = vsrc
+        elif name in (opts.get("defnone") or []):
+            decl = lambda a: f"    {name}: {a} = field(default=None, kw_only=True{cmp_})"
+            if name not in (opts.get("omit") or []):
+                vals[name] = vsrc
         else:
             decl = lambda a: f"    {name}: {a}" + (" = field(compare=False)" if cmp_ else "")
             vals[name] = vsrc
